@@ -64,3 +64,12 @@ _c("C14",
    "(re-ordering, subsetting, repeats), missing for unphenotyped taxa, invariant under row permutation; noiseless end-to-end pipeline returns truth.",
    "pandas groupby entered through the contract 'one row per distinct key, per-column mean' (re-checked by the Spec); multivariate_normal draws are oracle inputs (call pattern and covariance arguments compared). "
    "Partial: realised_error_variance_partial (the almost-sure limit of realised variances needs the generator's law; only tested statistically at fixed seeds with a 7-sigma band); meanBV_eq_mean_partial (one name, one group).")
+_c("C08",
+   "26 theorems (Props/C08.lean) about an abstract stream model (python stream, numpy global, OS entropy oracle, caller generators, spawned handles) with ARBITRARY component semantics constrained only by a dependency set: "
+   "after seed s the outputs of any program whose components do not read OS entropy coincide for all prior histories; a component that depends only on the generator it is handed returns a function of that generator and leaves "
+   "python/numpy globals untouched, whatever is interleaved; spawn is a deterministic function of the python stream. The dependency table of 39 real components (mating x7, phenotyping, samplers, sampled configurations, "
+   "optimisers, jitter, EMBV, select(), spawn) is MEASURED on every run (state digests, interception of os.urandom/default_rng/numpy.random.*, perturbation runs) and written to Generated/C08Deps.lean; the obligations "
+   "table_unseeded_known / table_leaks_known are closed by `decide` and stop compiling when a component starts reading an unseeded source or leaks out of its explicit generator.",
+   "The theorems are conditional on the measured table (dynamic, per explored call) - partial by construction: table_reproducible_partial, table_isolated_partial; sha1 digests stand for bit-identity; hash randomisation, threads, BLAS outside the model. "
+   "Known findings D11b, D12b (what remains after the D11/D12 repairs).",
+   technique="Lean 4 proof (agreement/frame invariants over an abstract stream semantics) + dependency table regenerated from measurements of the real components on every run, obligations closed by decide + whole-program differential replays")
